@@ -70,6 +70,8 @@ _FILE_PROPS = [
     ("src/hash_impl.h", {"C05"}),
     ("src/hsort_impl.h", {"C04"}),
     ("src/scratch_impl.h", {"C07", "C19"}),
+    # arithmetic kernels: only structural obligations land here (coverage of limb loops, constants)
+    ("src/field_", {"C05"}), ("src/scalar_", {"C05"}), ("src/group_", {"C05"}), ("src/ecmult", {"C05"}), ("src/modinv", {"C05"}),
 ]
 
 _NAME_PROPS = [  # functions of src/secp256k1.c
@@ -87,6 +89,7 @@ _NAME_EXTRA = [  # refinements that add properties regardless of file
     (r"secp256k1_ecdsa_s2c_sign|secp256k1_anti_exfil", {"C15", "C01"}),
     (r"secp256k1_ecdsa_sign_inner", {"C15"}),
     (r"secp256k1_ecdsa_sign_recoverable|secp256k1_ecdsa_recover", {"C01"}),
+    (r"secp256k1_fe_cmp_var$", {"C01"}),      # its only library caller is the r + n < p decision of ECDSA verification
 ]
 
 
